@@ -2,7 +2,7 @@
 From Coq Require Import ZArith List Bool Lia ZifyBool.
 Import ListNotations.
 From Urwid Require Import WidgetDims WidgetDimsProofs WidgetDimsFrame WidgetDimsOverlay WidgetDimsColsArith
-  WidgetDimsCols WidgetDimsTree WidgetDimsFixed WidgetDimsFixedPile.
+  WidgetDimsCols WidgetDimsTree WidgetDimsFixed WidgetDimsFixedPile WidgetDimsFixedCols.
 Open Scope Z_scope.
 
 (* every leaf that claims FIXED sizing renders what it packs (hypothesis, discharged by testing) *)
@@ -12,10 +12,13 @@ Fixpoint leaves_fx (w : widget) : Prop :=
   | WAttr w => leaves_fx w
   | WPadding w _ _ _ _ _ => leaves_fx w
   | WPile items _ => leaves_fx_p items
+  | WColumns items _ _ _ => leaves_fx_c items
   | _ => True
   end
 with leaves_fx_p (l : pitems) : Prop :=
-  match l with PNil => True | PCons w _ _ r => leaves_fx w /\ leaves_fx_p r end.
+  match l with PNil => True | PCons w _ _ r => leaves_fx w /\ leaves_fx_p r end
+with leaves_fx_c (l : citems) : Prop :=
+  match l with CNil => True | CCons w _ _ _ r => leaves_fx w /\ leaves_fx_c r end.
 
 Definition padfix_b (wt : wtype) (mw : option Z) : bool :=
   match wt with
@@ -39,10 +42,13 @@ Fixpoint fixed_fragment (w : widget) : bool :=
        | _ => false
        end)
   | WPile items _ => fixed_fragment_p items
-  | _ => false         (* Columns in fixed mode: not proved *)
+  | WColumns items _ _ _ => fixed_fragment_c items
+  | _ => false
   end
 with fixed_fragment_p (l : pitems) : bool :=
-  match l with PNil => true | PCons w _ _ r => fixed_fragment w && fixed_fragment_p r end.
+  match l with PNil => true | PCons w _ _ r => fixed_fragment w && fixed_fragment_p r end
+with fixed_fragment_c (l : citems) : bool :=
+  match l with CNil => true | CCons w _ _ _ r => fixed_fragment w && fixed_fragment_c r end.
 
 Theorem fixed_contract_by_induction :
   forall w, wf_b w = true -> proved_fragment w = true -> fixed_fragment w = true ->
@@ -53,7 +59,9 @@ Proof.
               leaves_ok w -> leaves_fx w -> GoodFx (denote w))
     (fun l => forall ps, wf_p l ps = true -> proved_fragment_p l = true -> fixed_fragment_p l = true ->
               leaves_ok_p l -> leaves_fx_p l -> s_fixed ps = true -> Forall pfx_ok (denote_p l))
-    (fun _ => True) (fun _ => True)).
+    (fun l => forall cs, wf_c l cs = true -> proved_fragment_c l cs = true -> fixed_fragment_c l = true ->
+              leaves_ok_c l -> leaves_fx_c l -> s_fixed cs = true -> Forall cfx_ok (denote_c l))
+    (fun _ => True)).
   - (* leaf *) intros d _ _ _ _ Hx. exact Hx.
   - (* attr *) intros w IH Hw Hp Hf Hl Hx.
     destruct (s_fixed (m_sizing (denote (WAttr w)))) eqn:ES; [|apply nofixed_fx; exact ES].
@@ -76,9 +84,16 @@ Proof.
     apply pile_fx.
     + apply denote_p_nonempty. lia.
     + apply (IH (pile_sizing (denote_p items))); auto; lia.
-  - (* columns *) intros items _ d mw fp Hw Hp Hf Hl Hx.
+  - (* columns *) intros items IH d mw fp Hw Hp Hf Hl Hx.
     destruct (s_fixed (m_sizing (denote (WColumns items d mw fp)))) eqn:ES; [|apply nofixed_fx; exact ES].
-    cbn [fixed_fragment] in Hf. rewrite ES in Hf. discriminate.
+    cbn [fixed_fragment] in Hf. rewrite ES in Hf. cbn [negb orb] in Hf.
+    cbn [denote wf_b proved_fragment leaves_ok leaves_fx cols_sem mk_node m_sizing] in *.
+    repeat match type of Hw with (_ && _) = true => apply andb_prop in Hw; let H := fresh "W" in destruct Hw as [Hw H] end.
+    apply andb_prop in Hp. destruct Hp as [Hp1 Hp2].
+    apply cols_fx; try lia.
+    + apply (IH (cols_sizing (denote_c items))); auto.
+    + rewrite ES in W. cbn [negb orb] in W. apply existsb_exists in W. destruct W as [it [Hin Hb]].
+      apply Exists_exists. exists it. split; [exact Hin|]. destruct (ci_box it); [discriminate|reflexivity].
   - (* frame *) intros. apply nofixed_fx. reflexivity.
   - (* overlay *) intros t _ b _ p Hw Hp Hf Hl Hx.
     destruct (s_fixed (m_sizing (denote (WOverlay t b p)))) eqn:ES; [|apply nofixed_fx; exact ES].
@@ -109,8 +124,24 @@ Proof.
         split; [lia|]. cbn in Kfx.
         destruct (s_flow (m_sizing (denote w))); [left; reflexivity|right].
         destruct (s_fixed (m_sizing (denote w))), (s_box (m_sizing (denote w))); cbn in Kfx; try discriminate; auto.
-  - exact I.
-  - intros; exact I.
+  - (* CNil *) intros; constructor.
+  - (* CCons *) intros w IHw k n b r IHr cs Hw Hp Hf Hl Hx Hs.
+    cbn [wf_c proved_fragment_c fixed_fragment_c leaves_ok_c leaves_fx_c denote_c] in *.
+    destruct Hl as [L1 L2]. destruct Hx as [X1 X2].
+    apply andb_prop in Hw. destruct Hw as [Hw Hw3]. apply andb_prop in Hw. destruct Hw as [Hw1 Hw2].
+    repeat match type of Hp with (_ && _) = true => apply andb_prop in Hp; let H := fresh "P" in destruct Hp as [Hp H] end.
+    apply andb_prop in Hf. destruct Hf as [Hf1 Hf2].
+    constructor; [|apply (IHr cs); auto].
+    unfold cfx_ok. cbn [ci_sem ci_kind ci_amount ci_box]. split; [|split].
+    + apply contract_by_structural_induction; auto.
+    + apply IHw; auto.
+    + unfold cols_child_ok, impb in Hw2. rewrite Hs in Hw2. cbn [negb orb] in Hw2.
+      apply andb_prop in Hw2. destruct Hw2 as [Hw2 Kfx]. apply andb_prop in Hw2. destruct Hw2 as [Hw2 _].
+      apply andb_prop in Hw2. destruct Hw2 as [Ka _].
+      destruct k.
+      * apply andb_prop in Ka. destruct Ka as [Kn _]. split; [lia|]. destruct b; cbn in Kfx; exact Kfx.
+      * apply andb_prop in Kfx. destruct Kfx as [K1 K2]. split; [exact K1|]. destruct b; [discriminate|reflexivity].
+      * apply andb_prop in Ka. destruct Ka as [Kn _]. split; [lia|]. destruct b; cbn in Kfx; exact Kfx.
   - exact I.
   - intros; exact I.
 Qed.
